@@ -88,17 +88,19 @@ def needsEsc (s : Str) : Bool := s.any (fun c => shouldEscape c .path || c == 37
 /-- the input class (one tag per class of interest; the failing classes have tags of their own) -/
 def classTag (t : RTarget) (req : URL) : String :=
   let form := formTag t
-  if !t.url.rawPath.isEmpty then "tmpl-encoded" else
-  if form == "fixed" || form == "multipath" then form else
   let raw := !req.rawPath.isEmpty
   let stripDec := !t.strip.isEmpty && hasPrefix req.path t.strip
-  let stripRaw := !t.strip.isEmpty && hasPrefix (if raw then req.rawPath else req.path) t.strip
-  if raw && stripDec != stripRaw then "strip-encoding-mismatch"
+  let stripRaw := !t.strip.isEmpty && hasPrefix (escapedPath req) t.strip
+  if form == "multipath" then form
+  else if !t.url.rawPath.isEmpty && contains vSlashPath t.url.path != contains vSlashPath (escapedPath t.url) then "tmpl-encoded-slash-mismatch"
+  else if form != "fixed" && raw && stripDec != stripRaw then "strip-encoding-mismatch"
+  else if !t.url.rawPath.isEmpty then "tmpl-encoded"
+  else if form == "fixed" then form
   else if raw && (needsEsc t.prepend || needsEsc t.url.path) then "prefix-needs-escape"
   else form ++ (if raw then "-enc" else "-plain") ++ (if stripDec then "-strip" else "") ++ (if t.prepend.isEmpty then "" else "-prepend")
 
 /-- input classes recorded as findings (checks/C13.findings.json) -/
-def findingClasses : List String := ["tmpl-encoded", "strip-encoding-mismatch", "prefix-needs-escape", "self-redirect-unnoticed"]
+def findingClasses : List String := ["strip-encoding-mismatch", "self-redirect-answered", "tmpl-encoded-slash-mismatch"]
 
 /-! ### c13.build -/
 
@@ -224,10 +226,9 @@ def httpH : Handler := fun inp impl => do
     let own (l : Loc) : Bool := l.scheme == scheme && l.host == hexEscapeNonASCII (escape .host host) &&
         (unescape l.path == some req.path)
     let redirectCands := cands.filterMap (fun c => match c with | some t => if t.code ≠ 0 then some t else none | none => none)
-    let lastIsRedirect := match cands.getLast? with | some (some t) => t.code ≠ 0 | _ => false
     let specRedirect := if is3xx status then
         hits == 0 && redirectCands.any (fun t => t.code == status && locationSpec t host (escapedPath req) (rawPathOf target) req.rawQuery iloc) &&
-        (match parseLoc iloc with | some l => !(own l) || lastIsRedirect | none => false)
+        (match parseLoc iloc with | some l => !(own l) | none => false)
       else true
     match res with
     | some (t, some u) =>
@@ -235,8 +236,7 @@ def httpH : Handler := fun inp impl => do
       let skipped := (cands.takeWhile (fun c => c != some t)).any (fun c => match c with | some c => c.code ≠ 0 | none => false)
       let ownLoc := match parseLoc loc with | some l => own l | none => false
       let cls := if findingClasses.contains (classTag t req) then classTag t req
-        else if selfRedirect u scheme req then "self-last-host"
-        else if ownLoc then "self-redirect-unnoticed" else classTag t req
+        else if ownLoc then "self-redirect-answered" else classTag t req
       let tag := if findingClasses.contains cls then cls else (if skipped then "skip-then-redirect-" else "redirect-") ++ cls
       return ({ model := Json.mkObj [("status", t.code), ("location", showB loc), ("hits", 0)],
                 agree := status == t.code && iloc == loc && hits == 0, spec := specRedirect && is3xx status, nontrivial := true,
